@@ -909,7 +909,7 @@ class C09(Prop):
         else:
             x = rng.below(1 << 48)
             value, shown = str(x), "time %d" % x
-        cap = rng.choice([2048, 2048, 300, 8])
+        cap = rng.choice([2048, 2048, 300, 8]) if not force else 2048
         meta = {"expect": "encode-attr", "line": "a %d %d %s" % (st, var, shown), "head": "h 0 %d 0 %d %d" % (var, st, st),
                 "unencodable": ty in ("vstr", "ostr", "bstr") and value != "-" and len(value) // 2 > 255}
         return Case(s, script_text(s, "app", {"cap": cap}, [("encode", seq, D.FC_WRITE, "attr", st, var, ty, value)]),
